@@ -1,11 +1,18 @@
 #!/bin/sh
-# usage: tools/try_seed.sh <patch.diff> <ID> [tier]   -- apply a seeded change to /repo, run the check, undo
-P="$1"; ID="$2"; TIER="${3:-quick}"
-git -C /repo apply "$P" || exit 3
-cd /verif && bin/check "$ID" --tier "$TIER" > /tmp/try_seed_$ID.out 2>&1; rc=$?
-git -C /repo checkout -- . 
-grep -c "^VIOLATION" /tmp/try_seed_$ID.out | sed "s/^/violations: /"
-grep "^VIOLATION" /tmp/try_seed_$ID.out | sed 's/replay=[^ ]*//' | sort | uniq -c | head -8
-grep "MACHINERY" /tmp/try_seed_$ID.out | head -3
-tail -1 /tmp/try_seed_$ID.out
-echo "exit=$rc"
+# usage: tools/try_seed.sh <patch.diff> <ID...>   -- judge a seeded change WITHOUT touching /repo: the patch is applied in a
+# scratch worktree of /repo HEAD (BCVERIF_REPO), build / evidence / replays go to a scratch BCVERIF_OUT; both removed after
+P="$(readlink -f "$1")"; shift
+TAG="$(echo "$P" | md5sum | cut -c1-8)_$$"
+WT=/tmp/tryseed_wt_$TAG; OUT=/tmp/tryseed_out_$TAG
+git -C /repo worktree add -q --detach $WT HEAD || exit 3
+( cd $WT && git apply "$P" ) || { git -C /repo worktree remove --force $WT; echo "PATCH DOES NOT APPLY"; exit 3; }
+mkdir -p $OUT
+for ID in "$@"; do
+  ( cd /verif && BCVERIF_REPO=$WT BCVERIF_OUT=$OUT TIER="${TIER:-quick}" bin/check "$ID" --tier "${TIER:-quick}" > /tmp/try_seed_${ID}_$TAG.out 2>&1 ); rc=$?
+  echo "--- $ID exit=$rc violations: $(grep -c '^VIOLATION' /tmp/try_seed_${ID}_$TAG.out)"
+  grep "^VIOLATION" /tmp/try_seed_${ID}_$TAG.out | sed 's/replay=[^ ]*//' | sort | uniq -c | head -8
+  grep "MACHINERY" /tmp/try_seed_${ID}_$TAG.out | head -3
+  tail -1 /tmp/try_seed_${ID}_$TAG.out | cut -c1-200
+  rm -f /tmp/try_seed_${ID}_$TAG.out
+done
+git -C /repo worktree remove --force $WT; rm -rf $OUT
